@@ -35,6 +35,25 @@ def run_product(ctx):
     if os.path.exists(cp):
         return json.load(open(cp))
     out = {"K": K, "runs": []}
+    # a recursive function in the parsing code makes the abstract call stack unbounded: the model cannot be extracted
+    P = ctx.P
+    rec_names = []
+    if "root_parse_model" in P.roots:
+        reach = P.reachable([P.roots["root_parse_model"]])
+        for comp in P.sccs(reach):
+            fns = [P.inst[x] for x in comp if P.inst[x].get("has_mir") and "drop_in_place" not in P.inst[x]["name"] and P.inst[x]["crate"] in ("json_syntax", "json_number", "locspan", "decoded_char", "utf8_decode")]
+            if fns:
+                rec_names.append(sorted(f["path"] for f in fns)[0])
+    if rec_names:
+        for (t, i) in VALUATIONS:
+            out["runs"].append({
+                "options": {"accept_truncated_surrogate_pair": bool(t), "accept_invalid_codepoints": bool(i)},
+                "states": 1, "transitions": 1, "accepting": 0, "rejecting": 0, "cut_at_depth": 0, "wall_s": 0.0,
+                "findings": [{"rule": "E2.undecided", "key": "recursion/" + n, "msg": "the parser model cannot be extracted: %s is part of a recursion cycle, so the abstract call stack is unbounded (undecided, failing closed)" % n,
+                              "site": "", "witness": None} for n in sorted(set(rec_names))],
+                "infos": [], "samples": [], "stats": {}, "asserts": {}, "assumptions": [], "unknown_calls": [], "anchors": [], "initial_position_ok": False, "coverage": [],
+            })
+        return out
     for (t, i) in VALUATIONS:
         pm = PModel(ctx.P)
         t0 = time.time()
